@@ -55,6 +55,17 @@ func (p *Proc) apiCall(verb string, res Resource, ns, name string, effect func(a
 	if p.dead {
 		return nil, errProcDead
 	}
+	if t.anon {
+		// goroutines spawned by the code under test register in racy order: give each a
+		// deterministic identity derived from what it is doing.
+		s.mu.Lock()
+		par := ""
+		if s.lastReleased != nil {
+			par = s.lastReleased.id
+		}
+		t.id = "anon:" + par + ":" + desc
+		s.mu.Unlock()
+	}
 	s.park(t, "api.req", desc, true)
 	if p.dead {
 		return nil, errProcDead
